@@ -465,7 +465,8 @@ Print Assumptions C01_special_states.
    authority terminator and path separator, failing inputs included (empty host, host parser failure,
    port not decimal or beyond 65535).  Excluded by in_class_special, and only that: a ".." meeting a
    drive-letter-shaped segment (F-C01-9; `spath_ok_s` tests it on the Standard's own segment list and
-   buffer).  In particular NOT excluded: ":@" in front of a host (Known_C01 class 4 is broader than
+   buffer, and only when the text behind host[:port] is empty or starts with '/', '\', '?', '#' - otherwise
+   both sides fail in the port state).  In particular NOT excluded: ":@" in front of a host (Known_C01 class 4 is broader than
    needed for special schemes: "http://:@h/" gives http://h/ on both sides, "http://:@/" fails on both),
    and a port followed by '\' (F-C01-8 concerns non-special schemes only).
    The host parsers of the two sides are arbitrary functions that agree on the ONE non-empty string they
@@ -587,3 +588,38 @@ Proof.
   split; [unfold host_agree_sp; vm_compute; repeat split; try reflexivity; intros H; discriminate H|].
   vm_compute. repeat split.
 Qed.
+
+(* the class is complete relative to Known_C01: every input whose cleaned text has a special non-file
+   scheme and that is outside Known_C01 (no base) is in in_class_special - the one exclusion of the class
+   needs a drive-letter-shaped piece in the raw text, which is Known_C01 class 2 *)
+From RU Require Import Proofs.C01_EqSpKnown.
+Theorem C01_special_class_complete : forall input sch R,
+  spec_scheme (spec_clean input) = Some (sch, R) -> is_special_scheme sch = true -> known_c01 None input = 0 ->
+  in_class_special input = true.
+Proof. exact special_class_covers_known. Qed.
+Print Assumptions C01_special_class_complete.
+
+(* hence C01_statement itself, for every input with a special scheme and no base (known_c01 = 0 excludes
+   "file"): outside Known_C01 the Standard succeeds -> the model succeeds with a `related` record (rel_api: same ten
+   API strings) or answers Overflow and the Standard's href exceeds u32::MAX bytes; the Standard fails ->
+   the model returns Err.  What separates this from the corresponding instance of C01_statement: the
+   host functions are abstract and assumed to agree on the one host string (C01_host_agree_special: they
+   do for the real ones, relative to the IDNA oracle), the ten strings are read through api_of_model, and
+   Overflow is a named outcome. *)
+Theorem C01_statement_special_nobase : forall dbg hp hpo hd shp shs input sch R,
+  usv_list input -> spec_scheme (spec_clean input) = Some (sch, R) -> is_special_scheme sch = true ->
+  known_c01 None input = 0 ->
+  host_agree_sp hp hd shp shs (class_host_text_s input) ->
+  agree_rel_strict dbg shs (parse_url dbg hp hpo hd None None input) (spec_basic_url_parse shp input None).
+Proof. exact statement_special_nobase. Qed.
+Check C01_statement_special_nobase : forall dbg hp hpo hd shp shs input sch R,
+  usv_list input -> spec_scheme (spec_clean input) = Some (sch, R) -> is_special_scheme sch = true ->
+  known_c01 None input = 0 ->
+  host_agree_sp hp hd shp shs (class_host_text_s input) ->
+  match spec_basic_url_parse shp input None with
+  | BDone su => (parse_url dbg hp hpo hd None None input = PErr Overflow /\ U32_MAX_P < nlen (get_href shs su))
+                \/ exists u, parse_url dbg hp hpo hd None None input = POk u /\ related dbg shs u su
+  | BFailure _ => exists e, parse_url dbg hp hpo hd None None input = PErr e
+  | BOutOfFuel => False
+  end.
+Print Assumptions C01_statement_special_nobase.
